@@ -493,6 +493,23 @@ func c11Limits(quick bool) []c11lim {
 		out = append(out, c11lim{"star-unpack-for-" + itoa(ba[0]) + "-" + itoa(ba[1]), "for " + t + " in t: pass\n", py.ExecMode})
 		out = append(out, c11lim{"star-unpack-list-" + itoa(ba[0]) + "-" + itoa(ba[1]), "def f():\n    [" + t + "] = t\n", py.ExecMode})
 	}
+	// number literals around the machine-word limits, in every radix and every mode: the lexer
+	// converts them with different code for different lengths, and a conversion error is not a SyntaxError
+	{
+		ones := func(n int) string { return rep("1", n) }
+		lits := []string{"0x7fffffffffffffff", "0x8000000000000000", "0xffffffffffffffff", "0XFFFFFFFFFFFFFFFF", "0x10000000000000000", "0x0ffffffffffffffff",
+			"0xfffffffffffffff", "0x" + rep("f", 17), "0x" + rep("f", 32), "0x" + rep("f", 33),
+			"0b" + ones(62), "0b" + ones(63), "0b" + ones(64), "0b" + ones(65), "0B" + ones(64), "0b0" + ones(64), "0b" + ones(128),
+			"0o777777777777777777777", "0o1000000000000000000000", "0o1777777777777777777777", "0o2000000000000000000000", "0O1777777777777777777777", "0o" + rep("7", 43),
+			"9223372036854775807", "9223372036854775808", "18446744073709551615", "18446744073709551616", "999999999999999999", "9999999999999999999", rep("9", 40),
+			"9223372036854775807j", "9223372036854775808j", "1e308", "1e309", "1e-323", "1e-400", "1" + rep("0", 400) + ".0", "0." + rep("0", 400) + "1", "1e" + rep("9", 30), "1E-" + rep("9", 30)}
+		for _, l := range lits {
+			out = append(out, c11lim{"number-" + short(l, 24) + "-" + itoa(len(l)) + "-eval", l, py.EvalMode})
+			out = append(out, c11lim{"number-" + short(l, 24) + "-" + itoa(len(l)) + "-neg", "-" + l, py.EvalMode})
+			out = append(out, c11lim{"number-" + short(l, 24) + "-" + itoa(len(l)) + "-exec", "x = " + l + "\n", py.ExecMode})
+			out = append(out, c11lim{"number-" + short(l, 24) + "-" + itoa(len(l)) + "-single", l + "\n", py.SingleMode})
+		}
+	}
 	// jump over > 65535 bytes
 	b.Reset()
 	b.WriteString("if x:\n")
